@@ -288,5 +288,5 @@ def run_shard(spec, col: Collector):
 def plan(tier, seed, scale=1.0):
     q = tier == "quick"
     nsh = 8   # real clusters: ~11 processes per scenario; more concurrent scenarios than that starve the 16 cores and the starvation itself loses local messages
-    return [dict(shard=f"r{c}", shard_no=c, nshards=nsh, n=max(1, int(5 * scale)), n_random=int(40 * scale), budget_s=100 if q else 1500, timeout_s=280 if q else 2400,
+    return [dict(shard=f"r{c}", shard_no=c, nshards=nsh, n=max(1, int(5 * scale)), n_random=int(40 * scale), budget_s=150 if q else 1500, timeout_s=320 if q else 2400,
                  hash_seed=(seed * 79 + c) % 4294967295) for c in range(nsh)]
